@@ -152,7 +152,11 @@ def setter_families(run, with_rt=False, inv=("AllWellFormed", "AllGettersOk")):
     r = rng(run.seed, "starts")
     fams = [
         ApiFamily("set_d1_full", STARTS_ALL, ALL_SETTER_OPS, depth=2, invariants=inv, with_rt=with_rt),
-        ApiFamily("set_d2_sub", STARTS_ALL, sub_ops(run.seed, "d2", 3 if q else 6), depth=3, invariants=inv, with_rt=with_rt),
+        # every PAIR of calls over the full value alphabet (state left by one setter feeds the next), from half / all of the starts
+        ApiFamily("set_d2_full", r.sample(STARTS_ALL, 7) if q else STARTS_ALL, ALL_SETTER_OPS, depth=3, invariants=inv, with_rt=with_rt),
+        # a URL obtained by RESOLUTION (port / credentials copied from the base), then protocol / port / host setters
+        ApiFamily("res_then_set", ["http://h:443/a/b?q#f", "https://u:p@h:80/x", "ws://h:21/", "x://:p@h:8/a"], acton=[2], nh=2, depth=3, refs=["c", "?q", "#f", "", "/x", "//h2:443"],
+                  setter_ops=[(n, v) for n in ("protocol", "port", "host") for v in SETTER_VALUES[n]], invariants=inv, with_rt=with_rt),
         ApiFamily("set_closure", r.sample(STARTS_ALL, 3 if q else 6) + ["http://u:p@h:8/a/b?q#f"], sub_ops(run.seed, "cl", 2 if q else 3),
                   mode="closure", invariants=inv, with_rt=with_rt),
     ]
@@ -178,10 +182,13 @@ SP_VALUES = ["", "1", "x y", "&", "=", "+", "%2B", "\u00e9", "'", "#"]
 SP_STARTS = ["http://h/?b=2&a=1&b=3", "http://h/p", "x:o?a=1", "http://h/?a+b=c%20d&&=x", "x://h/?%41=%2B&a=1%2B1", "m:o ?q#f", "http://h/?", "http://h/?a=1#f"]
 
 
-def sp_ops(names, values, with_sort=True):
+def sp_ops(names, values, with_sort=True, with_iter=True):
     ops = [("append", n, v) for n in names for v in values] + [("set", n, v) for n in names for v in values] + [("delete", n, "") for n in names]
     if with_sort:
-        ops += [("sort", "", ""), ("sortabs", "", ""), ("iterappend", "", values[0] if values and values[0] else "z")]
+        ops += [("sort", "", ""), ("sortabs", "", "")]
+    if with_sort and with_iter:
+        # Iterate(f): f appends to every value / only to the first pair's value (values grow: trees only, not closures)
+        ops += [("iterappend", "", values[0] if values and values[0] else "z"), ("iterfirst", "", "w")]
     return ops
 
 
@@ -280,7 +287,7 @@ def sp_families(run):
         ApiFamily("sp_d2", SP_STARTS, sp_ops=sp_ops(names, values), read_ops=reads, depth=3, invariants=("ListRoundTrip",)),
         ApiFamily("sp_full_d1", SP_STARTS, sp_ops=sp_ops(SP_NAMES, SP_VALUES), read_ops=[(o, n) for o in ("get", "getall", "has") for n in SP_NAMES], depth=2,
                   invariants=("ListRoundTrip",)),
-        ApiFamily("sp_closure", ["http://h/?b=2&a=1&b=3", "x:o?a=1"], sp_ops=sp_ops(names[:3], values[:2]), mode="closure", invariants=("ListRoundTrip",)),
+        ApiFamily("sp_closure", ["http://h/?b=2&a=1&b=3", "x:o?a=1"], sp_ops=sp_ops(names[:3], values[:2], with_iter=False), mode="closure", invariants=("ListRoundTrip",)),
     ]
     return fams
 
@@ -331,7 +338,7 @@ def check_c12(run):
     starts = ["http://h/?b=2&a=1", "x://h/p?a=1#f", "m:o  ?q", "m:o  #f", "http://h/p", "file:///d?x"]
     fams = [
         ApiFamily("sync_d3", starts, setter_ops=setters, sp_ops=sp_ops(names, values), depth=3 if q else 4, properties=("WriteThrough",)),
-        ApiFamily("sync_closure", starts[:3], setter_ops=r.sample(setters, 6), sp_ops=sp_ops(names[:2], values[:2]), mode="closure", properties=("WriteThrough",)),
+        ApiFamily("sync_closure", starts[:3], setter_ops=r.sample(setters, 6), sp_ops=sp_ops(names[:2], values[:2], with_iter=False), mode="closure", properties=("WriteThrough",)),
     ]
     run_api_families(run, fams, keys="href,query,search,pathname,hash")
     run_traces(run, salt=12, parse_only=10)
@@ -355,7 +362,7 @@ def check_c13(run):
             setters.append(extra)
     starts = ["http://u:p@h:8/a/b?q=1#f", "x://h/a?b=2", "file:///C:/d?x", "m:o?a=1", "m:o  #f", "m:o  ?q#f"]
     fams = [
-        ApiFamily("indep_d3", starts, setter_ops=setters, sp_ops=sp_ops(names, values, with_sort=False) + [("sort", "", ""), ("iterappend", "", "z")], refs=["x", "?n=1", "#g", "//o/p?r"],
+        ApiFamily("indep_d3", starts, setter_ops=setters, sp_ops=sp_ops(names, values, with_sort=False) + [("sort", "", ""), ("iterappend", "", "z"), ("iterfirst", "", "w")], refs=["x", "?n=1", "#g", "//o/p?r"],
                   depth=3 if q else 4, nh=3, clone=True, properties=("Independence",)),
     ]
     run_api_families(run, fams, keys="all")
@@ -975,11 +982,11 @@ def check_c02(run):
     longs = ["", " ", "\x00", ":", "/", "//", "?", "#", "@", "%", "[", "]", "\udcff", "\udcff\udcfe", "http://\udcff\udcfe/", "http://a\udcffb\udc80c/"]
     for p, u, s in [("http://", "@", "h/"), ("http://", "a", "@h/"), ("http://h/", "a/", ""), ("http://h/", "../", ""), ("http://h/?", "a=b&", ""), ("x:", "%", ""),
                     ("http://", "\udcff", "/"), ("http://[", ":", "]"), ("http://", "1.", "1"), ("", "a", ":b"), ("file:///", "C|/", ""), ("http://h/#", "\u00e9", "")]:
-        longs.append(p + u * (300 if q else 3000) + s)
+        longs.append(p + u * (300 if q else 1000) + s)
     with open(pf, "w") as f:
         for s_ in longs:
             f.write(json.dumps(json.dumps({"t": "u", "in": cps(s_)})) + "\n")
-    bad, n = run.tlc_events(None, "long", "robust", source_file=pf, chunks=4, tool="robust", events_args=["--seed", str(run.seed), "--tier", run.tier, "--cfg-per-input", "40" if q else "200", "--configs", cfgfile])
+    bad, n = run.tlc_events(None, "long", "robust", source_file=pf, chunks=4, tool="robust", events_args=["--seed", str(run.seed), "--tier", run.tier, "--cfg-per-input", "40" if q else "64", "--configs", cfgfile], timeout=1500)
     absorb_robust(run, bad, "long")
     run.distinct += n
     run.samples.append("robust event: {cfg: 'lax_host+accept_invalid', in: 'http://\\xff\\xfe/', calls: ~900 public calls (parse, 8 bases, resolve, clone, 9 setters x 16 nasty values, SearchParams ops, getters), bad: []}")
